@@ -566,3 +566,134 @@ def register(world):
     world.register(DeepLiftShap())
     world.register(RegisterHooks())
     world.register(ClearHooks())
+    world.register(MaxPool())
+
+
+class MaxPool(Contract):
+    """C04 / C05 (max-pool rule, MaxPool1d): the pooling indices are recomputed on the captured input with the
+    module's OWN kernel_size, stride, padding, dilation and ceil_mode, so that there is exactly one index per
+    window of the captured output; the contribution grad_output * delta_out of every window - delta_out =
+    max(out, out_ref) - out_ref for the example half, out - max(out, out_ref) for the reference half - is
+    added at the position of that window's maximum (windows may share a position); both halves are summed,
+    and divided by in(x) - in(ref) (the ordinary gradient where that difference is below 1e-7)."""
+    qualname = 'tangermeme.deep_lift_shap._maxpool'
+    props = ('C04', 'C05')
+
+    def make_args(self, cfg, A):
+        from vf.lib import POOLLEN
+        h, C, L = A.dim('h', 1), A.dim('C', 1), A.dim('L', 1)
+        ks, st, pad, dil = A.int('kernel_size', lo=1), A.int('stride', lo=1), A.int('padding', lo=0), A.int('dilation', lo=1)
+        cm = A.bool('ceil_mode')
+        # the forward pass of the module used the module's own parameters
+        Lo = POOLLEN(O.to_z3(L), ks, st, pad, dil, cm)
+        A.assume(Lo >= 0)
+        inp = A.tensor('input', 3, 'real', shape=[2 * h, C, L])
+        out = A.tensor('output', 3, 'real', shape=[2 * h, C, Lo])
+        def conc(model):
+            # a real MaxPool1d with valid parameters near the model's, its captured input and its own output
+            import torch
+            from vf.concrete import eval_int
+            clamp = lambda v, lo, hi: max(lo, min(hi, v))
+            k_, s_, d_ = clamp(eval_int(model, ks), 1, 3), clamp(eval_int(model, st), 1, 3), clamp(eval_int(model, dil), 1, 2)
+            h_, c_ = clamp(eval_int(model, h), 1, 2), clamp(eval_int(model, C), 1, 2)
+            l_ = max(clamp(eval_int(model, L), 1, 7), d_ * (k_ - 1) + 2)
+            mp = torch.nn.MaxPool1d(k_, stride=s_, padding=0, dilation=d_, ceil_mode=z3.is_true(model.eval(cm, model_completion=True)))
+            g = torch.Generator().manual_seed(1000 * k_ + 100 * s_ + 10 * d_ + l_)
+            x = torch.randint(-4, 5, (2 * h_, c_, l_), generator=g).double()
+            mp.input = x
+            mp.output = mp(x)
+            return mp
+        mod = Opaque('module', 'nn_module', attrs={'input': inp, 'output': out, 'kernel_size': ks, 'stride': st, 'padding': pad, 'dilation': dil,
+                                                   'ceil_mode': cm, 'types': ['torch.nn.MaxPool1d', 'torch.nn.modules.pooling.MaxPool1d'], 'concretize': conc})
+        gi = A.tensor('grad_input', 3, 'real', shape=[2 * h, C, L])
+        go = A.tensor('grad_output', 3, 'real', shape=[2 * h, C, Lo])
+        return [mod, (gi,), (go,)], {}
+
+    @staticmethod
+    def _case(k_, s_, d_, l_, ceil, h_=1, c_=2):
+        import torch
+        mp = torch.nn.MaxPool1d(k_, stride=s_, padding=0, dilation=d_, ceil_mode=ceil)
+        g = torch.Generator().manual_seed(1000 * k_ + 100 * s_ + 10 * d_ + l_)
+        x = torch.randint(-4, 5, (2 * h_, c_, l_), generator=g).double()
+        mp.input = x
+        mp.output = mp(x)
+        # the gradients handed to the hook have the shapes of the captured input and output
+        gi = torch.randint(-3, 4, tuple(mp.input.shape), generator=g).double()
+        go = torch.randint(-3, 4, tuple(mp.output.shape), generator=g).double()
+        object.__setattr__(mp, 'to_json', lambda: {'__factory__': 'maxpool_case', 'k': k_, 's': s_, 'd': d_, 'l': l_, 'ceil': bool(ceil), 'h': h_, 'c': c_})
+        return [mp, (gi,), (go,)]
+
+    def repair_concrete(self, cfg, args, kwargs):
+        mp = args[0]
+        one = lambda x: int(x[0]) if isinstance(x, (tuple, list)) else int(x)
+        return self._case(one(mp.kernel_size), one(mp.stride), one(mp.dilation), int(mp.input.shape[2]), bool(mp.ceil_mode),
+                          int(mp.input.shape[0]) // 2, int(mp.input.shape[1])), kwargs
+
+    def replay_variants(self, cfg, args, kwargs):
+        for ceil in (True, False):
+            for k_ in (2, 3):
+                for s_ in (1, 2, 3):
+                    for d_ in (1, 2):
+                        for l_ in (4, 5, 6, 7):
+                            if l_ >= d_ * (k_ - 1) + 1:
+                                yield self._case(k_, s_, d_, l_, ceil), kwargs
+
+    @staticmethod
+    def rule(inp, out, gi, go, idx, n_windows):
+        """the documented rule as an element function of the result, given the pooling indices idx(r, c, o)"""
+        h = O.floordiv(inp.shape[0], 2)
+
+        def dout(r, c, o):
+            q = ite(r < h, r, r - h)
+            mx = O.vmax(out.elem(q, c, o), out.elem(q + h, c, o))
+            return ite(r < h, mx - out.elem(q + h, c, o), out.elem(q, c, o) - mx)
+
+        def U(r, c, i):
+            return Sum(0, n_windows, lambda o: ite(O.eq(idx(r, c, o), i), go.elem(r, c, o) * dout(r, c, o), 0), 'real')
+
+        def elem(r, c, i):
+            q = ite(r < h, r, r - h)
+            din = inp.elem(q, c, i) - inp.elem(q + h, c, i)
+            small = And(din < 1e-7, -din < 1e-7)
+            if not O.is_sym(small):         # concrete interpretation: `ite` would evaluate the division eagerly
+                return gi.elem(r, c, i) if small else O.truediv(U(q, c, i) + U(q + h, c, i), din)
+            return ite(small, gi.elem(r, c, i), O.truediv(U(q, c, i) + U(q + h, c, i), din))
+        return elem
+
+    def post(self, a, r, cfg):
+        if not (isinstance(r, tuple) and len(r) == 1 and isinstance(r[0], Tn) and r[0].rank == 3):
+            return [('one-tensor-tuple', False)]
+        m = a.module.attrs
+        inp, out = m['input'], m['output']
+        res = r[0]
+        self._res = res
+        clauses = [('shape', And(*[O.eq(x, y) for x, y in zip(res.shape, inp.shape)]))]
+        if not O.any_sym(*inp.shape, *out.shape):
+            # concrete interpretation (replay): the indices of the module's own pooling, recomputed independently
+            import torch
+            import torch.nn.functional as F
+            to_t = lambda t: torch.tensor([[[float(t.elem(r_, c_, i_)) for i_ in range(int(t.shape[2]))] for c_ in range(int(t.shape[1]))]
+                                           for r_ in range(int(t.shape[0]))], dtype=torch.float64).reshape([int(d) for d in t.shape])
+            ks, st, pad, dil, cm = [m[k] for k in ('kernel_size', 'stride', 'padding', 'dilation', 'ceil_mode')]
+            _, I = F.max_pool1d(to_t(inp), int(ks), int(st), int(pad), int(dil), bool(cm), True)
+            n_w = int(I.shape[2])
+            clauses.append(('one-index-per-window-of-the-captured-output', n_w == int(out.shape[2])))
+            if n_w == int(out.shape[2]):
+                spec = self.rule(inp, out, a.grad_input[0], a.grad_output[0], lambda r_, c_, o_: int(I[int(r_), int(c_), int(o_)]), n_w)
+                clauses.append(('rule', O.forall(list(inp.shape), lambda r_, c_, i_: num_eq(res.elem(r_, c_, i_), spec(r_, c_, i_)))))
+        return clauses
+
+    def path_post(self, a, cfg, ctx):
+        m = a.module.attrs
+        inp, out = m['input'], m['output']
+        lp = ctx.ghost.get('last_pool')
+        if lp is None:
+            return [('pooling-indices-recomputed', False)]
+        res = self._res
+        cl = [('pooling-recomputed-on-the-captured-input', same(lp['input'], inp, 'pooled')[-1][1]),
+              ('one-index-per-window-of-the-captured-output', O.eq(lp['n_windows'], out.shape[2]))]
+        spec = self.rule(inp, out, a.grad_input[0], a.grad_output[0], lp['indices'], out.shape[2])
+        cl.append(('rule', O.forall(list(inp.shape), lambda r_, c_, i_: num_eq(res.elem(r_, c_, i_), spec(r_, c_, i_)))))
+        return cl
+
+
